@@ -467,6 +467,12 @@ def run(ctx):
                             "a raw-deflate decoder is reached without the zlib decoder having been tried" + ("" if exact is None else "; its guard sends the legal zlib header %02X %02X to it" % bad_hdr),
                             "zlib streams written with a window smaller than 32 KiB (first byte 0x68/0x58/0x48…, as deflateInit2 emits) are legal method-0x02 data and fail to decompress")
 
+    # reading what another writer stored, writing what another reader decrypts: the raw-vs-compressed decision and the key / flag
+    # consistency of the builder are clauses of this property as much as of C01 (rules shared)
+    from .c01 import decision_bound_rule, key_from_final_flags_rule
+    decision_bound_rule(ctx, mpq, "C02")
+    key_from_final_flags_rule(ctx, mpq, "C02")
+
     # names are hashed byte-wise (interoperability of non-ASCII names); the kernels themselves are decided under C04
     from .c04 import name_hash_iterates_bytes
     name_hash_iterates_bytes(ctx, mpq, "C02")
